@@ -1,6 +1,6 @@
 """C03 — exactly one terminal reply per request, to the right client."""
 import vlib
-from props import engine_common
+from props import engine_common, ms_common
 from props.c01 import FINISH
 
 THEOREMS = ["Slock.C03.conservation", "Slock.C03.C03_at_most_one", "Slock.C03.C03_exactly_one", "Slock.C03.C03_routing",
@@ -14,6 +14,8 @@ def run(ctx):
     if ctx.tier == "thorough":
         ctx.leanchecker("Slock.Properties.C03")
     engine_common.run_engine(ctx, ["C03:"], n_quick=3000, n_thorough=60000)
+    # millisecond waits: a request granted while its millisecond-table entry is still parked gets no second terminal reply
+    ms_common.run_ms(ctx, "wait-c03")
     if ctx.tier == "thorough":
         process_level_race(ctx)
     ctx.assumptions.append("replies are produced through the in-memory result callback (MemWaiterServerProtocol); binary/text framing of replies (late-reply filter) is C18/C14 territory")
